@@ -106,17 +106,20 @@ def _fact_file(out, crates):
     return os.path.join(out, c[-1]) if c else None
 
 
-def _gc(keep=12):
-    """remove old fact directories / lock files (keep the most recent ones)"""
+def _gc(keep=40):
+    """remove old fact directories / lock files (keep the most recent ones, never anything younger than an hour)"""
     try:
         ds = [os.path.join(WORK, d) for d in os.listdir(WORK) if d.startswith('facts-')]
         ds.sort(key=lambda p: os.stat(p).st_mtime, reverse=True)
         for d in ds[keep:]:
+            if time.time() - os.stat(d).st_mtime < 3600:
+                continue
             subprocess.run(['rm', '-rf', d])
         ls = [os.path.join(WORK, d) for d in os.listdir(WORK) if d.startswith('lock-')]
         ls.sort(key=lambda p: os.stat(p).st_mtime, reverse=True)
         for d in ls[keep * 2:]:
-            os.unlink(d)
+            if time.time() - os.stat(d).st_mtime > 3600:
+                os.unlink(d)
     except OSError:
         pass
 
